@@ -1,4 +1,705 @@
-//! Kani proof harnesses compiled as a child module of vrp-core/src/construction/heuristics/insertions.rs (cfg(kani) only).
+//! Kani proof harnesses compiled as a child module of vrp-core/src/construction/heuristics/insertions.rs.
+//!
+//! C09: order laws and +/- algebra of `InsertionCost`; C15: the reducer `choose_best_result`.
+use super::*;
+use std::cmp::Ordering;
+
+/// An insertion cost with `N` symbolic components of arbitrary bit pattern (NaN, infinities, both zeros included).
+fn any_cost<const N: usize>() -> ([Cost; 6], InsertionCost) {
+    let mut data = [0.; 6];
+    let mut idx = 0;
+    while idx < N {
+        data[idx] = kani::any();
+        idx += 1;
+    }
+    (data, InsertionCost::new(&data[..N]))
+}
+
+/// An insertion cost with `N` symbolic integer-valued components, |v| <= 2^24.
+fn any_int_cost<const N: usize>() -> ([Cost; 6], InsertionCost) {
+    let mut data = [0.; 6];
+    let mut idx = 0;
+    while idx < N {
+        let v: i32 = kani::any();
+        kani::assume(v >= -(1 << 24) && v <= (1 << 24));
+        data[idx] = v as Cost;
+        idx += 1;
+    }
+    (data, InsertionCost::new(&data[..N]))
+}
+
+/// Reference: lexicographic comparison where a missing trailing component counts as zero.
+/// Only used on inputs without NaN and without negative zero, where `<` is the intended scalar order.
+fn spec_lex(a: &[Cost; 6], b: &[Cost; 6]) -> Ordering {
+    let mut idx = 0;
+    while idx < 6 {
+        if a[idx] < b[idx] {
+            return Ordering::Less;
+        }
+        if a[idx] > b[idx] {
+            return Ordering::Greater;
+        }
+        idx += 1;
+    }
+    Ordering::Equal
+}
+
+fn plain(a: &[Cost; 6], n: usize) -> bool {
+    let mut idx = 0;
+    while idx < n {
+        if a[idx].is_nan() || (a[idx] == 0. && a[idx].is_sign_negative()) {
+            return false;
+        }
+        idx += 1;
+    }
+    true
+}
+
+fn pair_laws<const A: usize, const B: usize>() {
+    let (da, a) = any_cost::<A>();
+    let (db, b) = any_cost::<B>();
+
+    let ab = a.cmp(&b);
+    let ba = b.cmp(&a);
+    // antisymmetry / totality: exactly one of <, ==, > and it is mirrored
+    assert!(ab == ba.reverse());
+    // reflexivity
+    assert!(a.cmp(&a) == Ordering::Equal);
+    // consistency of the derived operators
+    assert!((a == b) == (ab == Ordering::Equal));
+    assert!(a.partial_cmp(&b) == Some(ab));
+    assert!((a > b) == (ab == Ordering::Greater));
+    // equals the lexicographic order with missing components = 0
+    if plain(&da, A) && plain(&db, B) {
+        assert!(ab == spec_lex(&da, &db));
+    }
+    kani::cover!((ab == Ordering::Less && plain(&da, A) && plain(&db, B)) || (A == 0 && B == 0), "less");
+    kani::cover!(ab == Ordering::Equal, "equal");
+    std::mem::forget((a, b));
+}
+
+fn triple_laws<const A: usize, const B: usize, const C: usize>() {
+    let (_, a) = any_cost::<A>();
+    let (_, b) = any_cost::<B>();
+    let (_, c) = any_cost::<C>();
+    let (ab, bc, ac) = (a.cmp(&b), b.cmp(&c), a.cmp(&c));
+    // transitivity of <= (covers <, == mixtures)
+    if ab != Ordering::Greater && bc != Ordering::Greater {
+        assert!(ac != Ordering::Greater);
+        if ab == Ordering::Less || bc == Ordering::Less {
+            assert!(ac == Ordering::Less);
+        }
+    }
+    if ab == Ordering::Equal && bc == Ordering::Equal {
+        assert!(ac == Ordering::Equal);
+    }
+    kani::cover!(ab == Ordering::Less && bc == Ordering::Less, "chain");
+    kani::cover!(ab == Ordering::Equal && bc == Ordering::Equal, "all-equal");
+    std::mem::forget((a, b, c));
+}
+
+fn algebra<const A: usize, const B: usize>() {
+    let (dx, x) = any_int_cost::<A>();
+    let (dy, y) = any_int_cost::<B>();
+    let n = if A > B { A } else { B };
+
+    let sum = &x + &y;
+    let diff = &x - &y;
+    assert!(sum.data.len() == n && diff.data.len() == n);
+    let mut idx = 0;
+    while idx < n {
+        assert!(sum.data[idx] == dx[idx] + dy[idx]);
+        assert!(diff.data[idx] == dx[idx] - dy[idx]);
+        idx += 1;
+    }
+    // inverse up to the sign of zero (component-wise ==, missing = 0)
+    let back1 = &sum - &y;
+    let back2 = &diff + &y;
+    let mut idx = 0;
+    while idx < n {
+        assert!(back1.data[idx] == dx[idx]);
+        assert!(back2.data[idx] == dx[idx]);
+        idx += 1;
+    }
+    assert!(back1.cmp(&x) == Ordering::Equal || !plain_zero_free(&back1));
+    kani::cover!(n == 0 || dx[0] != 0. || dy[0] != 0., "nonzero");
+    std::mem::forget((x, y, sum, diff, back1, back2));
+}
+
+fn plain_zero_free(c: &InsertionCost) -> bool {
+    // total_cmp distinguishes -0 from +0; equality under cmp is only demanded when no negative zero arose
+    c.data.iter().all(|v| !(*v == 0. && v.is_sign_negative()))
+}
+
+// @verif props=C09 tier=quick ob=cost_order fn=InsertionCost::cmp,InsertionCost::eq,InsertionCost::partial_cmp bounds="lengths 0 x 0, arbitrary f64 bit patterns (NaN, inf, +-0 included)"
+#[kani::proof]
+#[kani::unwind(8)]
+fn c09_cost_pair_laws_0_0() {
+    pair_laws::<0, 0>();
+}
+
+// @verif props=C09 tier=quick ob=cost_order fn=InsertionCost::cmp,InsertionCost::eq,InsertionCost::partial_cmp bounds="lengths 0 x 1, arbitrary f64 bit patterns (NaN, inf, +-0 included)"
+#[kani::proof]
+#[kani::unwind(8)]
+fn c09_cost_pair_laws_0_1() {
+    pair_laws::<0, 1>();
+}
+
+// @verif props=C09 tier=quick ob=cost_order fn=InsertionCost::cmp,InsertionCost::eq,InsertionCost::partial_cmp bounds="lengths 0 x 2, arbitrary f64 bit patterns (NaN, inf, +-0 included)"
+#[kani::proof]
+#[kani::unwind(8)]
+fn c09_cost_pair_laws_0_2() {
+    pair_laws::<0, 2>();
+}
+
+// @verif props=C09 tier=quick ob=cost_order fn=InsertionCost::cmp,InsertionCost::eq,InsertionCost::partial_cmp bounds="lengths 0 x 3, arbitrary f64 bit patterns (NaN, inf, +-0 included)"
+#[kani::proof]
+#[kani::unwind(8)]
+fn c09_cost_pair_laws_0_3() {
+    pair_laws::<0, 3>();
+}
+
+// @verif props=C09 tier=quick ob=cost_order fn=InsertionCost::cmp,InsertionCost::eq,InsertionCost::partial_cmp bounds="lengths 1 x 0, arbitrary f64 bit patterns (NaN, inf, +-0 included)"
+#[kani::proof]
+#[kani::unwind(8)]
+fn c09_cost_pair_laws_1_0() {
+    pair_laws::<1, 0>();
+}
+
+// @verif props=C09 tier=quick ob=cost_order fn=InsertionCost::cmp,InsertionCost::eq,InsertionCost::partial_cmp bounds="lengths 1 x 1, arbitrary f64 bit patterns (NaN, inf, +-0 included)"
+#[kani::proof]
+#[kani::unwind(8)]
+fn c09_cost_pair_laws_1_1() {
+    pair_laws::<1, 1>();
+}
+
+// @verif props=C09 tier=quick ob=cost_order fn=InsertionCost::cmp,InsertionCost::eq,InsertionCost::partial_cmp bounds="lengths 1 x 2, arbitrary f64 bit patterns (NaN, inf, +-0 included)"
+#[kani::proof]
+#[kani::unwind(8)]
+fn c09_cost_pair_laws_1_2() {
+    pair_laws::<1, 2>();
+}
+
+// @verif props=C09 tier=thorough ob=cost_order fn=InsertionCost::cmp,InsertionCost::eq,InsertionCost::partial_cmp bounds="lengths 1 x 3, arbitrary f64 bit patterns (NaN, inf, +-0 included)"
+#[kani::proof]
+#[kani::unwind(8)]
+fn c09_cost_pair_laws_1_3() {
+    pair_laws::<1, 3>();
+}
+
+// @verif props=C09 tier=quick ob=cost_order fn=InsertionCost::cmp,InsertionCost::eq,InsertionCost::partial_cmp bounds="lengths 2 x 0, arbitrary f64 bit patterns (NaN, inf, +-0 included)"
+#[kani::proof]
+#[kani::unwind(8)]
+fn c09_cost_pair_laws_2_0() {
+    pair_laws::<2, 0>();
+}
+
+// @verif props=C09 tier=quick ob=cost_order fn=InsertionCost::cmp,InsertionCost::eq,InsertionCost::partial_cmp bounds="lengths 2 x 1, arbitrary f64 bit patterns (NaN, inf, +-0 included)"
+#[kani::proof]
+#[kani::unwind(8)]
+fn c09_cost_pair_laws_2_1() {
+    pair_laws::<2, 1>();
+}
+
+// @verif props=C09 tier=quick ob=cost_order fn=InsertionCost::cmp,InsertionCost::eq,InsertionCost::partial_cmp bounds="lengths 2 x 2, arbitrary f64 bit patterns (NaN, inf, +-0 included)"
+#[kani::proof]
+#[kani::unwind(8)]
+fn c09_cost_pair_laws_2_2() {
+    pair_laws::<2, 2>();
+}
+
+// @verif props=C09 tier=thorough ob=cost_order fn=InsertionCost::cmp,InsertionCost::eq,InsertionCost::partial_cmp bounds="lengths 2 x 3, arbitrary f64 bit patterns (NaN, inf, +-0 included)"
+#[kani::proof]
+#[kani::unwind(8)]
+fn c09_cost_pair_laws_2_3() {
+    pair_laws::<2, 3>();
+}
+
+// @verif props=C09 tier=quick ob=cost_order fn=InsertionCost::cmp,InsertionCost::eq,InsertionCost::partial_cmp bounds="lengths 3 x 0, arbitrary f64 bit patterns (NaN, inf, +-0 included)"
+#[kani::proof]
+#[kani::unwind(8)]
+fn c09_cost_pair_laws_3_0() {
+    pair_laws::<3, 0>();
+}
+
+// @verif props=C09 tier=thorough ob=cost_order fn=InsertionCost::cmp,InsertionCost::eq,InsertionCost::partial_cmp bounds="lengths 3 x 1, arbitrary f64 bit patterns (NaN, inf, +-0 included)"
+#[kani::proof]
+#[kani::unwind(8)]
+fn c09_cost_pair_laws_3_1() {
+    pair_laws::<3, 1>();
+}
+
+// @verif props=C09 tier=thorough ob=cost_order fn=InsertionCost::cmp,InsertionCost::eq,InsertionCost::partial_cmp bounds="lengths 3 x 2, arbitrary f64 bit patterns (NaN, inf, +-0 included)"
+#[kani::proof]
+#[kani::unwind(8)]
+fn c09_cost_pair_laws_3_2() {
+    pair_laws::<3, 2>();
+}
+
+// @verif props=C09 tier=quick ob=cost_order fn=InsertionCost::cmp,InsertionCost::eq,InsertionCost::partial_cmp bounds="lengths 3 x 3, arbitrary f64 bit patterns (NaN, inf, +-0 included)"
+#[kani::proof]
+#[kani::unwind(8)]
+fn c09_cost_pair_laws_3_3() {
+    pair_laws::<3, 3>();
+}
+
+// @verif props=C09 tier=thorough ob=cost_order fn=InsertionCost::cmp,InsertionCost::eq,InsertionCost::partial_cmp bounds="lengths 6 x 6 (inline capacity 6), arbitrary f64 bit patterns"
+#[kani::proof]
+#[kani::unwind(8)]
+fn c09_cost_pair_laws_6_6() {
+    pair_laws::<6, 6>();
+}
+
+// @verif props=C09 tier=thorough ob=cost_order fn=InsertionCost::cmp,InsertionCost::eq,InsertionCost::partial_cmp bounds="lengths 6 x 0 (inline capacity 6), arbitrary f64 bit patterns"
+#[kani::proof]
+#[kani::unwind(8)]
+fn c09_cost_pair_laws_6_0() {
+    pair_laws::<6, 0>();
+}
+
+// @verif props=C09 tier=thorough ob=cost_order fn=InsertionCost::cmp,InsertionCost::eq,InsertionCost::partial_cmp bounds="lengths 0 x 6 (inline capacity 6), arbitrary f64 bit patterns"
+#[kani::proof]
+#[kani::unwind(8)]
+fn c09_cost_pair_laws_0_6() {
+    pair_laws::<0, 6>();
+}
+
+// @verif props=C09 tier=thorough ob=cost_order fn=InsertionCost::cmp,InsertionCost::eq,InsertionCost::partial_cmp bounds="lengths 5 x 6 (inline capacity 6), arbitrary f64 bit patterns"
+#[kani::proof]
+#[kani::unwind(8)]
+fn c09_cost_pair_laws_5_6() {
+    pair_laws::<5, 6>();
+}
+
+// @verif props=C09 tier=thorough ob=cost_order fn=InsertionCost::cmp,InsertionCost::eq,InsertionCost::partial_cmp bounds="lengths 4 x 2 (inline capacity 6), arbitrary f64 bit patterns"
+#[kani::proof]
+#[kani::unwind(8)]
+fn c09_cost_pair_laws_4_2() {
+    pair_laws::<4, 2>();
+}
+
+// @verif props=C09 tier=quick ob=cost_transitive fn=InsertionCost::cmp bounds="lengths 1,1,1, arbitrary f64 bit patterns"
+#[kani::proof]
+#[kani::unwind(8)]
+fn c09_cost_transitive_1_1_1() {
+    triple_laws::<1, 1, 1>();
+}
+
+// @verif props=C09 tier=quick ob=cost_transitive fn=InsertionCost::cmp bounds="lengths 0,1,2, arbitrary f64 bit patterns"
+#[kani::proof]
+#[kani::unwind(8)]
+fn c09_cost_transitive_0_1_2() {
+    triple_laws::<0, 1, 2>();
+}
+
+// @verif props=C09 tier=quick ob=cost_transitive fn=InsertionCost::cmp bounds="lengths 2,1,0, arbitrary f64 bit patterns"
+#[kani::proof]
+#[kani::unwind(8)]
+fn c09_cost_transitive_2_1_0() {
+    triple_laws::<2, 1, 0>();
+}
+
+// @verif props=C09 tier=quick ob=cost_transitive fn=InsertionCost::cmp bounds="lengths 1,2,1, arbitrary f64 bit patterns"
+#[kani::proof]
+#[kani::unwind(8)]
+fn c09_cost_transitive_1_2_1() {
+    triple_laws::<1, 2, 1>();
+}
+
+// @verif props=C09 tier=quick ob=cost_transitive fn=InsertionCost::cmp bounds="lengths 2,0,2, arbitrary f64 bit patterns"
+#[kani::proof]
+#[kani::unwind(8)]
+fn c09_cost_transitive_2_0_2() {
+    triple_laws::<2, 0, 2>();
+}
+
+// @verif props=C09 tier=quick ob=cost_transitive fn=InsertionCost::cmp bounds="lengths 2,2,2, arbitrary f64 bit patterns"
+#[kani::proof]
+#[kani::unwind(8)]
+fn c09_cost_transitive_2_2_2() {
+    triple_laws::<2, 2, 2>();
+}
+
+// @verif props=C09 tier=quick ob=cost_transitive fn=InsertionCost::cmp bounds="lengths 1,0,2, arbitrary f64 bit patterns"
+#[kani::proof]
+#[kani::unwind(8)]
+fn c09_cost_transitive_1_0_2() {
+    triple_laws::<1, 0, 2>();
+}
+
+// @verif props=C09 tier=thorough ob=cost_transitive fn=InsertionCost::cmp bounds="lengths 3,3,3, arbitrary f64 bit patterns"
+#[kani::proof]
+#[kani::unwind(8)]
+fn c09_cost_transitive_3_3_3() {
+    triple_laws::<3, 3, 3>();
+}
+
+// @verif props=C09 tier=thorough ob=cost_transitive fn=InsertionCost::cmp bounds="lengths 3,1,2, arbitrary f64 bit patterns"
+#[kani::proof]
+#[kani::unwind(8)]
+fn c09_cost_transitive_3_1_2() {
+    triple_laws::<3, 1, 2>();
+}
+
+// @verif props=C09 tier=thorough ob=cost_transitive fn=InsertionCost::cmp bounds="lengths 0,3,1, arbitrary f64 bit patterns"
+#[kani::proof]
+#[kani::unwind(8)]
+fn c09_cost_transitive_0_3_1() {
+    triple_laws::<0, 3, 1>();
+}
+
+// @verif props=C09 tier=thorough ob=cost_transitive fn=InsertionCost::cmp bounds="lengths 2,3,0, arbitrary f64 bit patterns"
+#[kani::proof]
+#[kani::unwind(8)]
+fn c09_cost_transitive_2_3_0() {
+    triple_laws::<2, 3, 0>();
+}
+
+// @verif props=C09 tier=thorough ob=cost_transitive fn=InsertionCost::cmp bounds="lengths 3,0,3, arbitrary f64 bit patterns"
+#[kani::proof]
+#[kani::unwind(8)]
+fn c09_cost_transitive_3_0_3() {
+    triple_laws::<3, 0, 3>();
+}
+
+// @verif props=C09 tier=thorough ob=cost_transitive fn=InsertionCost::cmp bounds="lengths 4,4,4, arbitrary f64 bit patterns"
+#[kani::proof]
+#[kani::unwind(8)]
+fn c09_cost_transitive_4_4_4() {
+    triple_laws::<4, 4, 4>();
+}
+
+// @verif props=C09 tier=thorough ob=cost_transitive fn=InsertionCost::cmp bounds="lengths 6,6,6, arbitrary f64 bit patterns"
+#[kani::proof]
+#[kani::unwind(8)]
+fn c09_cost_transitive_6_6_6() {
+    triple_laws::<6, 6, 6>();
+}
+
+// @verif props=C09 tier=quick ob=cost_algebra fn=InsertionCost::add,InsertionCost::sub bounds="lengths 0 x 0, integer-valued components |v|<=2^24"
+#[kani::proof]
+#[kani::unwind(8)]
+fn c09_cost_algebra_0_0() {
+    algebra::<0, 0>();
+}
+
+// @verif props=C09 tier=quick ob=cost_algebra fn=InsertionCost::add,InsertionCost::sub bounds="lengths 0 x 1, integer-valued components |v|<=2^24"
+#[kani::proof]
+#[kani::unwind(8)]
+fn c09_cost_algebra_0_1() {
+    algebra::<0, 1>();
+}
+
+// @verif props=C09 tier=thorough ob=cost_algebra fn=InsertionCost::add,InsertionCost::sub bounds="lengths 0 x 2, integer-valued components |v|<=2^24"
+#[kani::proof]
+#[kani::unwind(8)]
+fn c09_cost_algebra_0_2() {
+    algebra::<0, 2>();
+}
+
+// @verif props=C09 tier=thorough ob=cost_algebra fn=InsertionCost::add,InsertionCost::sub bounds="lengths 0 x 3, integer-valued components |v|<=2^24"
+#[kani::proof]
+#[kani::unwind(8)]
+fn c09_cost_algebra_0_3() {
+    algebra::<0, 3>();
+}
+
+// @verif props=C09 tier=quick ob=cost_algebra fn=InsertionCost::add,InsertionCost::sub bounds="lengths 1 x 0, integer-valued components |v|<=2^24"
+#[kani::proof]
+#[kani::unwind(8)]
+fn c09_cost_algebra_1_0() {
+    algebra::<1, 0>();
+}
+
+// @verif props=C09 tier=quick ob=cost_algebra fn=InsertionCost::add,InsertionCost::sub bounds="lengths 1 x 1, integer-valued components |v|<=2^24"
+#[kani::proof]
+#[kani::unwind(8)]
+fn c09_cost_algebra_1_1() {
+    algebra::<1, 1>();
+}
+
+// @verif props=C09 tier=quick ob=cost_algebra fn=InsertionCost::add,InsertionCost::sub bounds="lengths 1 x 2, integer-valued components |v|<=2^24"
+#[kani::proof]
+#[kani::unwind(8)]
+fn c09_cost_algebra_1_2() {
+    algebra::<1, 2>();
+}
+
+// @verif props=C09 tier=thorough ob=cost_algebra fn=InsertionCost::add,InsertionCost::sub bounds="lengths 1 x 3, integer-valued components |v|<=2^24"
+#[kani::proof]
+#[kani::unwind(8)]
+fn c09_cost_algebra_1_3() {
+    algebra::<1, 3>();
+}
+
+// @verif props=C09 tier=thorough ob=cost_algebra fn=InsertionCost::add,InsertionCost::sub bounds="lengths 2 x 0, integer-valued components |v|<=2^24"
+#[kani::proof]
+#[kani::unwind(8)]
+fn c09_cost_algebra_2_0() {
+    algebra::<2, 0>();
+}
+
+// @verif props=C09 tier=quick ob=cost_algebra fn=InsertionCost::add,InsertionCost::sub bounds="lengths 2 x 1, integer-valued components |v|<=2^24"
+#[kani::proof]
+#[kani::unwind(8)]
+fn c09_cost_algebra_2_1() {
+    algebra::<2, 1>();
+}
+
+// @verif props=C09 tier=quick ob=cost_algebra fn=InsertionCost::add,InsertionCost::sub bounds="lengths 2 x 2, integer-valued components |v|<=2^24"
+#[kani::proof]
+#[kani::unwind(8)]
+fn c09_cost_algebra_2_2() {
+    algebra::<2, 2>();
+}
+
+// @verif props=C09 tier=thorough ob=cost_algebra fn=InsertionCost::add,InsertionCost::sub bounds="lengths 2 x 3, integer-valued components |v|<=2^24"
+#[kani::proof]
+#[kani::unwind(8)]
+fn c09_cost_algebra_2_3() {
+    algebra::<2, 3>();
+}
+
+// @verif props=C09 tier=thorough ob=cost_algebra fn=InsertionCost::add,InsertionCost::sub bounds="lengths 3 x 0, integer-valued components |v|<=2^24"
+#[kani::proof]
+#[kani::unwind(8)]
+fn c09_cost_algebra_3_0() {
+    algebra::<3, 0>();
+}
+
+// @verif props=C09 tier=thorough ob=cost_algebra fn=InsertionCost::add,InsertionCost::sub bounds="lengths 3 x 1, integer-valued components |v|<=2^24"
+#[kani::proof]
+#[kani::unwind(8)]
+fn c09_cost_algebra_3_1() {
+    algebra::<3, 1>();
+}
+
+// @verif props=C09 tier=thorough ob=cost_algebra fn=InsertionCost::add,InsertionCost::sub bounds="lengths 3 x 2, integer-valued components |v|<=2^24"
+#[kani::proof]
+#[kani::unwind(8)]
+fn c09_cost_algebra_3_2() {
+    algebra::<3, 2>();
+}
+
+// @verif props=C09 tier=thorough ob=cost_algebra fn=InsertionCost::add,InsertionCost::sub bounds="lengths 3 x 3, integer-valued components |v|<=2^24"
+#[kani::proof]
+#[kani::unwind(8)]
+fn c09_cost_algebra_3_3() {
+    algebra::<3, 3>();
+}
+
+
+// ---------------------------------------------------------------------------------------------------------
+// C15: `choose_best_result` is the reducer handed to rayon's fold/reduce. Its algebra is decided here.
+
+use crate::models::common::Dimensions;
+use crate::models::problem::Single;
+use crate::utils::Either;
+use crate::verif_support::*;
+
+fn c15_actor() -> Arc<Actor> {
+    let actor = actor_with(vehicle_with(Dimensions::default(), costs(0., 0., 0.)), 0, 0., Some(0), 1000.);
+    std::mem::forget(actor.clone());
+    actor
+}
+
+/// All leaves share one job whose `Arc` is additionally leaked once, so that dropping the loser inside the reducer
+/// is a plain reference-count decrement (the drop glue of `Single`/`Dimensions` is not the subject here).
+fn c15_job() -> Job {
+    let job = Job::Single(single_with(Dimensions::default()));
+    std::mem::forget(job.clone());
+    job
+}
+
+fn c15_success<const N: usize>(actor: &Arc<Actor>) -> ([Cost; 6], InsertionResult) {
+    let (data, cost) = any_cost::<N>();
+    (data, InsertionResult::Success(InsertionSuccess { cost, job: c15_job(), activities: vec![], actor: actor.clone() }))
+}
+
+fn c15_failure(with_job: bool) -> InsertionResult {
+    let code: i32 = kani::any();
+    let stopped: bool = kani::any();
+    InsertionResult::make_failure_with_code(ViolationCode(code), stopped, if with_job { Some(c15_job()) } else { None })
+}
+
+fn c15_pair_ss<const A: usize, const B: usize>() {
+    let (actor_l, actor_r) = (c15_actor(), c15_actor());
+    let (_, left) = c15_success::<A>(&actor_l);
+    let (_, right) = c15_success::<B>(&actor_r);
+    let (cl, cr) = (left.as_success().unwrap().cost.clone(), right.as_success().unwrap().cost.clone());
+
+    let result = InsertionResult::choose_best_result(left, right);
+    let best = result.as_success().expect("success expected");
+    // the winner is one of the operands and its cost is the minimum of both
+    assert!(best.cost.cmp(&cl) != Ordering::Greater && best.cost.cmp(&cr) != Ordering::Greater);
+    let from_left = Arc::ptr_eq(&best.actor, &actor_l);
+    let from_right = Arc::ptr_eq(&best.actor, &actor_r);
+    assert!(from_left != from_right);
+    assert!(best.cost.cmp(if from_left { &cl } else { &cr }) == Ordering::Equal);
+    // default cost selector agrees with the reducer
+    let selector = BestResultSelector::default();
+    let picked = match selector.select_cost(&cl, &cr) {
+        Either::Left(c) => c,
+        Either::Right(c) => c,
+    };
+    assert!(picked.cmp(&best.cost) == Ordering::Equal);
+    kani::cover!(from_left && cl.cmp(&cr) == Ordering::Less, "left-wins");
+    kani::cover!(from_right, "right-wins");
+    kani::cover!(cl.cmp(&cr) == Ordering::Equal, "tie");
+    std::mem::forget((result, cl, cr, actor_l, actor_r));
+}
+
+// @verif props=C15 tier=quick ob=reducer_pair fn=InsertionResult::choose_best_result,ResultSelector::select_cost bounds="Success x Success, cost lengths 1x1, arbitrary f64 bit patterns" stubs="Arc::drop_slow := no-op (payload of a last Arc reference is leaked; drop glue not the subject)"
+#[kani::proof]
+#[kani::unwind(8)]
+#[kani::stub(std::sync::Arc::drop_slow, crate::verif_support::arc_drop_noop)]
+fn c15_choose_best_ss_1_1() {
+    c15_pair_ss::<1, 1>();
+}
+
+// @verif props=C15 tier=quick ob=reducer_pair fn=InsertionResult::choose_best_result,ResultSelector::select_cost bounds="Success x Success, cost lengths 2x2, arbitrary f64 bit patterns" stubs="Arc::drop_slow := no-op (payload of a last Arc reference is leaked; drop glue not the subject)"
+#[kani::proof]
+#[kani::unwind(8)]
+#[kani::stub(std::sync::Arc::drop_slow, crate::verif_support::arc_drop_noop)]
+fn c15_choose_best_ss_2_2() {
+    c15_pair_ss::<2, 2>();
+}
+
+// @verif props=C15 tier=quick ob=reducer_pair fn=InsertionResult::choose_best_result,ResultSelector::select_cost bounds="Success x Success, cost lengths 1x2 (missing component = 0), arbitrary f64 bit patterns" stubs="Arc::drop_slow := no-op (payload of a last Arc reference is leaked; drop glue not the subject)"
+#[kani::proof]
+#[kani::unwind(8)]
+#[kani::stub(std::sync::Arc::drop_slow, crate::verif_support::arc_drop_noop)]
+fn c15_choose_best_ss_1_2() {
+    c15_pair_ss::<1, 2>();
+}
+
+// @verif props=C15 tier=thorough ob=reducer_pair fn=InsertionResult::choose_best_result,ResultSelector::select_cost bounds="Success x Success, cost lengths 3x3, arbitrary f64 bit patterns" stubs="Arc::drop_slow := no-op (payload of a last Arc reference is leaked; drop glue not the subject)"
+#[kani::proof]
+#[kani::unwind(8)]
+#[kani::stub(std::sync::Arc::drop_slow, crate::verif_support::arc_drop_noop)]
+fn c15_choose_best_ss_3_3() {
+    c15_pair_ss::<3, 3>();
+}
+
+// @verif props=C15 tier=thorough ob=reducer_pair fn=InsertionResult::choose_best_result,ResultSelector::select_cost bounds="Success x Success, cost lengths 3x2, arbitrary f64 bit patterns" stubs="Arc::drop_slow := no-op (payload of a last Arc reference is leaked; drop glue not the subject)"
+#[kani::proof]
+#[kani::unwind(8)]
+#[kani::stub(std::sync::Arc::drop_slow, crate::verif_support::arc_drop_noop)]
+fn c15_choose_best_ss_3_2() {
+    c15_pair_ss::<3, 2>();
+}
+
+// @verif props=C15 tier=quick ob=reducer_pair fn=InsertionResult::choose_best_result,InsertionResult::make_failure bounds="Success x Failure, Failure x Success, Failure x Failure, identity element; cost length 2; symbolic codes/flags" stubs="Arc::drop_slow := no-op (payload of a last Arc reference is leaked; drop glue not the subject)"
+#[kani::proof]
+#[kani::unwind(8)]
+#[kani::stub(std::sync::Arc::drop_slow, crate::verif_support::arc_drop_noop)]
+fn c15_choose_best_with_failures() {
+    let actor = c15_actor();
+    // S x F
+    let (_, left) = c15_success::<2>(&actor);
+    let cl = left.as_success().unwrap().cost.clone();
+    let with_job: bool = kani::any();
+    let best = InsertionResult::choose_best_result(left, c15_failure(with_job));
+    assert!(best.as_success().is_some_and(|s| s.cost.cmp(&cl) == Ordering::Equal));
+    std::mem::forget(best);
+    // F x S
+    let (_, right) = c15_success::<2>(&actor);
+    let cr = right.as_success().unwrap().cost.clone();
+    let best = InsertionResult::choose_best_result(c15_failure(with_job), right);
+    assert!(best.as_success().is_some_and(|s| s.cost.cmp(&cr) == Ordering::Equal));
+    std::mem::forget(best);
+    // identity element of the reduction is neutral on the cost, on either side
+    let (_, x) = c15_success::<2>(&actor);
+    let cx = x.as_success().unwrap().cost.clone();
+    let best = InsertionResult::choose_best_result(InsertionResult::make_failure(), x);
+    assert!(best.as_success().is_some_and(|s| s.cost.cmp(&cx) == Ordering::Equal));
+    let best = InsertionResult::choose_best_result(best, InsertionResult::make_failure());
+    assert!(best.as_success().is_some_and(|s| s.cost.cmp(&cx) == Ordering::Equal));
+    std::mem::forget(best);
+    // F x F stays a failure; a failure that names a job with a known code is not replaced by the anonymous identity
+    let l = c15_failure(true);
+    let best = InsertionResult::choose_best_result(l, InsertionResult::make_failure());
+    match &best {
+        InsertionResult::Failure(f) => assert!(f.job.is_some()),
+        _ => panic!("failure expected"),
+    }
+    std::mem::forget(best);
+    let best = InsertionResult::choose_best_result(c15_failure(kani::any()), c15_failure(kani::any()));
+    assert!(best.as_success().is_none());
+    kani::cover!(true, "reached");
+    std::mem::forget((best, cl, cr, cx, actor));
+}
+
+fn c15_leaf(actor: &Arc<Actor>, kind: u8) -> (InsertionResult, Option<Cost>) {
+    // kind: 0 = failure, 1 = identity, else success with one-component cost
+    match kind {
+        0 => (c15_failure(true), None),
+        1 => (InsertionResult::make_failure(), None),
+        _ => {
+            let (d, r) = c15_success::<1>(actor);
+            (r, Some(d[0]))
+        }
+    }
+}
+
+fn c15_min(a: Option<Cost>, b: Option<Cost>) -> Option<Cost> {
+    match (a, b) {
+        (Some(a), Some(b)) => Some(if a.total_cmp(&b) == Ordering::Greater { b } else { a }),
+        (Some(a), None) => Some(a),
+        (None, b) => b,
+    }
+}
+
+fn c15_cost_of(r: &InsertionResult) -> Option<Cost> {
+    r.as_success().map(|s| s.cost.data[0])
+}
+
+fn c15_same(a: Option<Cost>, b: Option<Cost>) -> bool {
+    match (a, b) {
+        (Some(a), Some(b)) => a.total_cmp(&b) == Ordering::Equal,
+        (None, None) => true,
+        _ => false,
+    }
+}
+
+/// Reduction tree independence for three leaves: both tree shapes over the order (a, b, c); leaf kinds symbolic.
+/// Commutativity on the cost (pair lemma above) + this associativity give every permutation and grouping.
+fn c15_tree3(k0: u8, k1: u8, k2: u8) {
+    let actor = c15_actor();
+    let (a, ca) = c15_leaf(&actor, k0);
+    let (b, cb) = c15_leaf(&actor, k1);
+    let (c, cc) = c15_leaf(&actor, k2);
+    let expected = c15_min(c15_min(ca, cb), cc);
+    let shape: bool = kani::any();
+    let result = if shape {
+        InsertionResult::choose_best_result(InsertionResult::choose_best_result(a, b), c)
+    } else {
+        InsertionResult::choose_best_result(a, InsertionResult::choose_best_result(b, c))
+    };
+    assert!(c15_same(c15_cost_of(&result), expected));
+    kani::cover!(shape, "left-deep");
+    kani::cover!(!shape, "right-deep");
+    std::mem::forget((result, actor));
+}
+
+// @verif props=C15 tier=quick ob=reducer_tree fn=InsertionResult::choose_best_result bounds="3 leaves all Success (1-component costs, arbitrary f64 bits), both tree shapes" stubs="Arc::drop_slow := no-op (payload of a last Arc reference is leaked; drop glue not the subject)"
+#[kani::proof]
+#[kani::unwind(8)]
+#[kani::stub(std::sync::Arc::drop_slow, crate::verif_support::arc_drop_noop)]
+fn c15_tree3_sss() {
+    c15_tree3(2, 2, 2);
+}
+
+// @verif props=C15 tier=quick ob=reducer_tree fn=InsertionResult::choose_best_result bounds="3 leaves: Success, identity, Success / Failure, Success, identity; both tree shapes" stubs="Arc::drop_slow := no-op (payload of a last Arc reference is leaked; drop glue not the subject)"
+#[kani::proof]
+#[kani::unwind(8)]
+#[kani::stub(std::sync::Arc::drop_slow, crate::verif_support::arc_drop_noop)]
+fn c15_tree3_mixed() {
+    c15_tree3(2, 1, 2);
+    c15_tree3(0, 2, 1);
+    c15_tree3(1, 0, 2);
+    c15_tree3(0, 1, 0);
+}
 
 // Concrete-playback replays (`cargo kani playback`) are compiled from here; the file is written by /verif/check.
 #[cfg(all(kani, test))]
